@@ -135,14 +135,20 @@ def scope_files(kind):
     return out
 
 
+def kwdir_name(form):
+    # a directory name with glob metacharacters is still just a name
+    return "kw[2024]" if form == "bracket" else "kw"
+
+
 def kwdir_path(scratch, form):
     """The custom keyword directory as the caller names it.  The world's cwd
     is its scratch directory, so the relative forms name the same directory."""
-    full = os.path.join(scratch, "kw")
+    name = kwdir_name(form)
+    full = os.path.join(scratch, name)
     if os.path.realpath(os.getcwd()) != os.path.realpath(scratch):
         return full
-    return {"abs": full, "rel": "kw", "dot": os.path.join(".", "kw"), "slash": "kw" + os.sep,
-            "abs_slash": full + os.sep}.get(form or "abs", full)
+    return {"abs": full, "rel": name, "dot": os.path.join(".", name), "slash": name + os.sep,
+            "abs_slash": full + os.sep, "bracket": full}.get(form or "abs", full)
 
 
 _CLEANUP_LINES = {}
@@ -225,7 +231,7 @@ class W09:
         FS.configure(enum_seed=self.w.get("enum_seed", 0), io_seed=self.w.get("io_seed", 0), io_knobs=self.w.get("io", {}))
         if cfg["keywords"] != "shipped":
             self.cur_cfg = int(self.w.get("config_idx", 0))
-            fsim.materialise(self.layout_of(self.cur_cfg), os.path.join(self.scratch, "kw"))
+            fsim.materialise(self.layout_of(self.cur_cfg), os.path.join(self.scratch, kwdir_name(self.w.get("kwdir_form"))))
             self.kwdir = kwdir_path(self.scratch, self.w.get("kwdir_form"))
         import_repo()
         import multidecoder.json_conversion  # noqa: F401
@@ -241,7 +247,7 @@ class W09:
         """The keyword files are replaced in place by a variant with the same
         paths, the same sizes and the same timestamps: registries built from now
         on must reflect the new contents."""
-        fsim.materialise(self.layout_of(idx), os.path.join(self.scratch, "kw"))
+        fsim.materialise(self.layout_of(idx), os.path.join(self.scratch, kwdir_name(self.w.get("kwdir_form"))))
         self.cur_cfg = idx
         self.counters["config_swaps"] = self.counters.get("config_swaps", 0) + 1
 
@@ -911,7 +917,7 @@ class W18:
         raise Harness("bad form " + form)
 
     def run(self):
-        fsim.materialise(self.scn["layout"], os.path.join(self.scratch, "kw"))
+        fsim.materialise(self.scn["layout"], os.path.join(self.scratch, kwdir_name(self.w.get("kwdir_form"))))
         FS.configure(enum_seed=self.w.get("enum_seed", 0), io_seed=self.w.get("io_seed", 0), io_knobs=self.w.get("io", {}))
         import_repo()
         for self.opi, op in enumerate(self.w["ops"]):
@@ -1141,7 +1147,7 @@ class W20:
         scn, w = self.scn, self.w
         kwdir = ""
         if scn.get("layout"):
-            fsim.materialise(scn["layout"], os.path.join(self.scratch, "kw"))
+            fsim.materialise(scn["layout"], os.path.join(self.scratch, kwdir_name(w.get("kwdir_form"))))
             kwdir = kwdir_path(self.scratch, w.get("kwdir_form"))
         FS.configure(enum_seed=w.get("enum_seed", 0), io_seed=w.get("io_seed", 0), io_knobs=w.get("io", {}))
         import_repo()
